@@ -174,6 +174,11 @@ def close6(a, b):
     return abs(a - b) <= m * Fraction(2, 100000) or m < Fraction(1, 10 ** 12)
 
 
+def same6(a, b):
+    """two renderings of the same option value: relative agreement at the sixth digit, NO absolute floor (1e-50 is not 0)"""
+    return a == b or abs(a - b) <= max(abs(a), abs(b)) * Fraction(2, 100000)
+
+
 def gfmt(x):
     return "%g" % x
 
@@ -930,7 +935,7 @@ def judge_one(ctx, env, c, plan, lr, exp, act):
             got = act["echo"].get(disp)
             ctx.stat("oracle:wiring")
             if role[2] == "value":
-                ok = got is not None and dec(got) is not None and close6(dec(got), Fraction(c.varied[1]))
+                ok = got is not None and dec(got) is not None and same6(dec(got), Fraction(c.varied[1]))
                 wanted = c.varied[1]
             elif role[2] == "named":
                 cident = dict((k, v) for m, k, v in env.spec["names"] if m == role[3]).get(c.varied[1])
@@ -964,7 +969,7 @@ def judge_one(ctx, env, c, plan, lr, exp, act):
                              env.T["doc_defaults"][role[1]]))
             for what, ref in refs:
                 ctx.stat("oracle:default")
-                ok = got is not None and dec(got) is not None and dec(ref) is not None and close6(dec(got), dec(ref))
+                ok = got is not None and dec(got) is not None and dec(ref) is not None and same6(dec(got), dec(ref))
                 if not ok:
                     ctx.fail("default:%s" % optn, "without --%s the library receives `%s = [%s]`, but %s" % (optn, disp, got, what),
                              case=D, detail={"echo": act["echo"], "references": refs})
